@@ -263,6 +263,21 @@ def d_delayed_two():
     return Chart(Scxml(a, b, fin), tags=["delayed"])
 
 
-ALL += [d_delayed, d_delayed_two]
+def d_internal_parallel():
+    # type="internal" on a transition whose source is a <parallel>: not a compound state, so the transition is
+    # external -- its domain is the enclosing compound state, the parallel and its siblings' subtrees are exited
+    r1a = State(name="r1a", trans=[T("f", ["r1b"])])
+    r1b = State(name="r1b")
+    r1 = State(r1a, r1b, name="r1")
+    r2 = State(State(name="r2a"), name="r2")
+    p = Parallel(r1, r2, name="p", trans=[T("e", ["r1b"], internal=True)])
+    o1 = State(name="o1")
+    other = State(o1, name="other", trans=[T("g", ["o1"], internal=True), T("e", ["p"])])
+    top = State(p, other, name="top")
+    return Chart(Scxml(top), tags=["internal", "parallel"])
+
+
+ALL += [d_delayed, d_delayed_two, d_internal_parallel]
 WORDS["d_delayed"] = [["e"], ["e", "e"]]
 WORDS["d_delayed_two"] = [["e"], ["e", "e"]]
+WORDS["d_internal_parallel"] = [["f", "e"], ["e", "e"], ["f", "e", "f"]]
